@@ -155,8 +155,8 @@ case "$cmd" in
     trap 'rm -rf "$S"' EXIT
     if needs_race "$prop"; then prepare "$S" race; else prepare "$S"; fi
     shift; shift 2>/dev/null
-    "$S/simrun" -property "$prop" -tier "$tier" -evidence "$VERIF/evidence/$prop.json" \
-        -known "$VERIF/known_findings.json" -replaydir "$VERIF/replays" "$@"
+    "$S/simrun" -property "$prop" -tier "$tier" -evidence "${VERIF_EVIDENCE_DIR:-$VERIF/evidence}/$prop.json" \
+        -known "$VERIF/known_findings.json" -replaydir "${VERIF_REPLAY_DIR:-$VERIF/replays}" "$@"
     exit $?
     ;;
   *)
